@@ -8,3 +8,9 @@ import GoFlags.Props.C14
 #print axioms GoFlags.C14.unknown_section
 #print axioms GoFlags.C14.entry_value_error_line
 #print axioms GoFlags.C14.apply_error_carries_entry_line
+#print axioms GoFlags.C14.forgetF_hasSection
+#print axioms GoFlags.C14.forgetF_append
+#print axioms GoFlags.C14.forgetF_addEntry
+#print axioms GoFlags.C14.readIniLine_meaning
+#print axioms GoFlags.C14.readIniLines_meaning
+#print axioms GoFlags.C14.noise_line_changes_nothing
